@@ -532,6 +532,47 @@ pub fn run(ctx: &Ctx, rep: &Report) {
         accepted.fetch_add(n, Ordering::Relaxed);
         rep.part("call sequences over a handful of devices and key slots", total.load(Ordering::Relaxed) - before, json!({"symbols": k, "length": len, "sequences": (k as u64).pow(len as u32)}));
     }
+    // a feed over time (state that ages: generation counters, caches keyed by the key period): device A is heard, then
+    // k key periods (64 s each) pass in which other devices are heard in EVERY period, then A is heard again in the
+    // period reached; every call is held to the inversion oracle. k runs through every value up to 600 (thorough 1100),
+    // which covers the wrap-around of any 8-bit counter and of ring caches up to that size.
+    {
+        let before = total.load(Ordering::Relaxed);
+        let kmax: u32 = if thorough { 1100 } else { 600 };
+        let t0 = 1_646_885_440u32; // a multiple of 64
+        let a = Fields { addr: 0x38f27b, actype: 1, alt: 160, ..Fields::base() };
+        let cnt = AtomicU64::new(0);
+        par_items(ctx.threads, kmax as usize, |ki| {
+            let k = ki as u32 + 1;
+            let mut n = 0u64;
+            for others in [1u32, 3] {
+                // a fresh thread: whatever the subject remembers starts empty, as in a process that has just started
+                std::thread::scope(|sc| {
+                    sc.spawn(|| {
+                        check_inverse(&a, t0 + 5, &base_ref, None, rep);
+                        for step in 1..=k {
+                            for d in 0..others {
+                                let f = Fields { addr: 0x3a0000 + ((step * 7 + d) % 251) * 0x101, actype: 2 + (d % 10), alt: 300 + (step % 4000), no_track: d == 1, ..Fields::base() };
+                                check_inverse(&f, t0 + 64 * step + 3 + d, &base_ref, None, rep);
+                            }
+                        }
+                        PRIOR.with(|p| *p.borrow_mut() = Some((t0 + 5, a.packet(t0 + 5))));
+                        check_inverse(&a, t0 + 64 * k + 9, &base_ref, None, rep);
+                        PRIOR.with(|p| *p.borrow_mut() = None);
+                    });
+                });
+                n += 2 + (k * others) as u64;
+                if stopped() {
+                    break;
+                }
+            }
+            cnt.fetch_add(n, Ordering::Relaxed);
+        });
+        let n = cnt.load(Ordering::Relaxed);
+        total.fetch_add(n, Ordering::Relaxed);
+        accepted.fetch_add(n, Ordering::Relaxed);
+        rep.part("a feed over time: a device heard again after k key periods in which other devices were heard", total.load(Ordering::Relaxed) - before, json!({"k": format!("1..={kmax}"), "other_devices_per_period": [1, 3]}));
+    }
     // positions: every latitude / longitude code inside the window of each reference
     let before = total.load(Ordering::Relaxed);
     let pos_refs: Vec<[f64; 2]> = {
